@@ -70,6 +70,10 @@ pub enum CSpec {
     Relation { var: String, op: u8 },
     Union(Vec<CSpec>),
     Limit { begin: i64, end: i64 },
+    /// built only: a handle-collection constraint over the fixed store (`Constraint::Annotations`, `Data`, `Keys`,
+    /// `Resources`, `TextSelections`). kind 0-4 in that order; `picks` index the items of that kind in the fixed
+    /// store (duplicates dropped, order kept); depth 0 Zero, 1 One, 2 Max (annotations only).
+    Coll { kind: u8, picks: Vec<u8>, meta: bool, depth: u8 },
 }
 
 #[derive(Clone, Debug, Serialize, Deserialize, PartialEq)]
@@ -365,6 +369,37 @@ impl Printer {
                 }
                 self.toks.push(Tok { text: "]".into(), sep: " ".into() });
             }
+            CSpec::Coll { kind, picks, meta, depth } => {
+                // text form of a collection: the disjunction of its members
+                self.tok("[");
+                for (i, m) in super::dump::coll_members(*kind, picks).iter().enumerate() {
+                    if i > 0 {
+                        self.toks.push(Tok { text: "OR".into(), sep: " ".into() });
+                    }
+                    let at = self.toks.len();
+                    self.tok(m.keyword);
+                    if i > 0 {
+                        self.toks[at].sep = " ".into();
+                    }
+                    self.meta(*meta);
+                    if *kind % 5 == 0 && *depth % 3 == 2 {
+                        self.tok("RECURSIVE");
+                    }
+                    for a in &m.args {
+                        self.tok(format!("\"{}\"", a));
+                    }
+                    if let Some(v) = &m.value {
+                        self.tok("=");
+                        self.tok(v.clone());
+                    }
+                    if let Some((b, e)) = m.offset {
+                        self.tok("OFFSET");
+                        self.tok(format!("{}", b));
+                        self.tok(format!("{}", e));
+                    }
+                }
+                self.toks.push(Tok { text: "]".into(), sep: " ".into() });
+            }
             CSpec::Limit { begin, end } => {
                 self.tok("LIMIT");
                 if *begin == 0 && *end >= 0 && self.bit() {
@@ -432,7 +467,7 @@ impl Printer {
                     self.tok(format!("@{}", a));
                 }
                 self.constraint(c);
-                if matches!(c, CSpec::Union(_)) {
+                if matches!(c, CSpec::Union(_) | CSpec::Coll { .. }) {
                     // the parser wants the ';' directly behind ']'
                     self.glued(";");
                 } else {
@@ -675,6 +710,7 @@ pub fn build_constraint<'a>(c: &'a CSpec) -> Constraint<'a> {
         CSpec::Relation { var, op } => Constraint::TextRelation { var, operator: relop(*op) },
         CSpec::Union(subs) => Constraint::Union(subs.iter().map(build_constraint).collect()),
         CSpec::Limit { begin, end } => Constraint::Limit { begin: *begin as isize, end: *end as isize },
+        CSpec::Coll { kind, picks, meta, depth } => super::dump::build_collection(*kind, picks, qual(*meta), *depth),
     }
 }
 
@@ -859,6 +895,15 @@ fn constraint_outside(c: &CSpec, out: &mut Vec<&'static str>) {
             }
         }
         CSpec::Limit { .. } => {}
+        CSpec::Coll { kind, meta, depth, .. } => {
+            if *kind % 5 == 0 {
+                match depth % 3 {
+                    0 => out.push("depth-zero"),
+                    2 if !*meta => out.push("recursive-without-metadata"),
+                    _ => {}
+                }
+            }
+        }
     }
 }
 
@@ -1024,12 +1069,29 @@ fn leaf_constraint(text_form: bool) -> BoxedStrategy<CSpec> {
     .boxed()
 }
 
+/// handle collections of size 0-3 over the fixed store, with and without qualifier
+fn collection() -> BoxedStrategy<CSpec> {
+    (
+        0u8..5,
+        prop_oneof![1 => Just(0usize), 3 => Just(1usize), 4 => Just(2usize), 3 => Just(3usize)].prop_flat_map(|n| proptest::collection::vec(0u8..12, n..=n)),
+        meta(),
+        prop_oneof![1 => Just(0u8), 8 => Just(1u8), 2 => Just(2u8)],
+    )
+        .prop_map(|(kind, picks, meta, depth)| {
+            // RECURSIVE is only grammatical after AS METADATA; keep the ungrammatical combination rare
+            let depth = if depth == 2 && !meta && picks.first().map(|p| p % 4 != 0).unwrap_or(true) { 1 } else { depth };
+            CSpec::Coll { kind, picks, meta, depth: if kind == 0 { depth } else { 1 } }
+        })
+        .boxed()
+}
+
 fn cspec(text_form: bool, union_depth: u32) -> BoxedStrategy<CSpec> {
+    let leaf = if text_form { leaf_constraint(text_form) } else { prop_oneof![9 => leaf_constraint(text_form), 1 => collection()].boxed() };
     if union_depth == 0 {
-        leaf_constraint(text_form)
+        leaf
     } else {
         prop_oneof![
-            7 => leaf_constraint(text_form),
+            7 => leaf,
             1 => proptest::collection::vec(cspec(text_form, union_depth - 1), 1..=3).prop_map(CSpec::Union),
         ]
         .boxed()
@@ -1109,6 +1171,46 @@ pub fn qspec(depth: u32, text_form: bool) -> BoxedStrategy<QSpec> {
         1 => wild,
     ]
     .boxed()
+}
+
+/// built SELECT queries whose first constraint is a handle collection in a place where the engine evaluates both the
+/// collection and the disjunction it is printed as (so that the `meaning` facet is decided), optionally followed by a
+/// constraint that the fixed store satisfies
+pub fn collection_query() -> BoxedStrategy<QSpec> {
+    // (result type, collection kind, metadata allowed, RECURSIVE allowed)
+    let place = prop_oneof![
+        4 => Just((0u8, 0u8, true, false)),
+        3 => Just((1u8, 1u8, false, false)),
+        2 => Just((1u8, 0u8, true, true)),
+        2 => Just((2u8, 0u8, true, true)),
+        3 => Just((4u8, 3u8, true, false)),
+        1 => (0u8..6, 0u8..5).prop_map(|(rt, k)| (rt, k, true, true)),
+    ];
+    let second = prop_oneof![
+        5 => Just(None),
+        1 => Just(Some(CSpec::DataKey { set: "s1".into(), key: "k1".into(), meta: false })),
+        1 => Just(Some(CSpec::DataKey { set: "s1".into(), key: "k2".into(), meta: false })),
+        1 => Just(Some(CSpec::Resource { id: "r1".into(), var: false, meta: false, offset: None })),
+        1 => Just(Some(CSpec::Value { op: OpSpec { cmp: 1, v: VSpec::Str("v1".into()) }, meta: false })),
+    ];
+    (
+        place,
+        prop_oneof![1 => Just(0usize), 3 => Just(1usize), 4 => Just(2usize), 3 => Just(3usize)].prop_flat_map(|n| proptest::collection::vec(0u8..12, n..=n)),
+        any::<bool>(),
+        0u8..6,
+        second,
+        name(),
+    )
+        .prop_map(|((rtype, kind, meta_ok, rec_ok), picks, meta, d, second, name)| {
+            let meta = meta && meta_ok;
+            let depth = if kind == 0 && rec_ok && meta && d == 0 { 2 } else { 1 };
+            let mut cons = vec![(vec![], CSpec::Coll { kind, picks, meta, depth })];
+            if let Some(c) = second {
+                cons.push((vec![], c));
+            }
+            QSpec { qtype: 0, optional: false, rtype, name, attrs: vec![], cons, assigns: vec![], subs: vec![] }
+        })
+        .boxed()
 }
 
 pub fn mutation() -> BoxedStrategy<Mut> {
